@@ -590,19 +590,25 @@ def guess_initial_parameters(idnt=None,
 
 
 def obj2bytes(obj):
-    """Bytes representation of an object for hashing"""
+    """Bytes representation of an object for hashing
+
+    Every item is delimited (quoted strings, bracketed and comma-separated
+    sequences, shape-prefixed arrays), so that different objects cannot
+    yield the same byte string by concatenation.
+    """
     if isinstance(obj, str):
-        return obj.encode("utf-8")
+        return repr(obj).encode("utf-8")
     elif isinstance(obj, (bool, int, float, np.bool_)):
         return str(float(obj)).encode("utf-8")
     elif obj is None:
         return b"none"
     elif isinstance(obj, np.ndarray):
-        return obj.tobytes()
+        header = "array{}{}:".format(obj.shape, obj.dtype.str)
+        return header.encode("utf-8") + obj.tobytes()
     elif isinstance(obj, tuple):
         return obj2bytes(list(obj))
     elif isinstance(obj, list):
-        return b"".join(obj2bytes(o) for o in obj)
+        return b"[" + b",".join(obj2bytes(o) for o in obj) + b"]"
     elif isinstance(obj, dict):
         return obj2bytes(sorted(obj.items()))
     elif isinstance(obj, lmfit.parameter.Parameter):
